@@ -1,5 +1,6 @@
 """C15 - server-sent events are delivered exactly regardless of line endings and splits (DESIGN 2.C15)."""
 import ast
+import re
 
 from ..core import Mutant, norm
 from .. import httpparse as hp
@@ -150,7 +151,7 @@ def check(run):
         run.ob("C15.R3", "%s:evented-branch-%d" % (pb.fq, i), ok, run.site(pb, b),
                "" if ok else "evented branch %d: parse() called=%s, propagates %s (needs retry and leid)" % (i, calls, sorted(stores)))
     if len(blocks) == 2:
-        a, b = (unparse(x) for x in sorted(blocks, key=lambda n: n.lineno))
+        a, b = (re.sub(r"__i\d*\b", "", unparse(x)) for x in sorted(blocks, key=lambda n: n.lineno))     # expansion temporaries are numbered per site
         run.ob("C15.R3", "%s:evented-branches-agree" % pb.fq, a == b, run.site(pb, blocks[1]),
                "" if a == b else "the chunked and the close-delimited evented branches of parseBody differ:\n%s\n-- vs --\n%s" % (a, b))
     run.floor("C15.R3", 4)
